@@ -144,6 +144,21 @@ pub fn eval(case: &Case) -> Verdict {
             _ => vfail!("overlap-free interleaving decoded wrongly: {}", msg),
         }
     }
+    // delivery timing ("when its last chunk arrives"), judged up to the first overlap point
+    {
+        let mut ends: Vec<u64> = dec.iter().map(|d| d.end).collect();
+        ends.sort_unstable();
+        let by_end: Vec<Msg> = {
+            let mut v: Vec<&crate::refs::chunk::DecMsg> = dec.iter().collect();
+            v.sort_by_key(|d| d.end);
+            v.into_iter().map(|d| d.msg.clone()).collect()
+        };
+        let limit = overlap_at.unwrap_or(stream.len());
+        if let Some(e) = lib_delivery_timing(&stream, &ends, &by_end, limit) {
+            vfail!("{}", e);
+        }
+        obs.class_if(dec.iter().any(|d| d.msg.payload.is_empty() && (d.end as usize) <= limit), "zero-length-message-timing-judged");
+    }
     obs.class_if(interleaved, "chunks-interleaved");
     obs.class_if(!interleaved, "overlap-free");
     obs.class_if(!case.pre.is_empty(), "sequential-prefix-on-several-chunk-streams");
